@@ -327,11 +327,46 @@ def _independent_bounds(plan, cfg):
     if limit is not None:
         extra = 0 if cfg["module"] == cfg["root"] else len(cfg["module"].split("/")) - 1
         max_comps = limit + extra + 1
-    return {"root": cfg["root"], "on_disk": on_disk, "max_comps": max_comps}
+    # an upper bound of every name the architecture can possibly contain: what is on disk (cut
+    # at the level limit) plus every absolute import target with its parents (external modules)
+    upper = set()
+    for n in on_disk:
+        parts = n.split(".")
+        upper.add(".".join(parts[:max_comps]) if max_comps else n)
+        for i in range(1, len(parts)):
+            upper.add(".".join(parts[:i]))
+    import ast
+
+    for f, text in tree.get("files", {}).items():
+        if not f.endswith(".py"):
+            continue
+        try:
+            mod = ast.parse(text)
+        except SyntaxError:
+            continue
+        for node in ast.walk(mod):
+            names = []
+            if isinstance(node, ast.Import):
+                names = [a.name for a in node.names]
+            elif isinstance(node, ast.ImportFrom) and node.level == 0 and node.module:
+                names = [node.module] + [f"{node.module}.{a.name}" for a in node.names]
+            for n in names:
+                parts = n.split(".")
+                for i in range(1, len(parts) + 1):
+                    upper.add(".".join(parts[:i]))
+    return {"root": cfg["root"], "on_disk": on_disk, "max_comps": max_comps, "upper": upper}
 
 
 def _surely_undefined(kind, name, bounds):
-    if not bounds or kind not in ("are_named", "are_sub_modules_of"):
+    if not bounds:
+        return None
+    if kind == "have_name_matching":
+        rx = re.compile(name)
+        return None if any(rx.search(m) for m in bounds["upper"]) else "pattern-can-match-nothing"
+    if kind == "have_name_containing":
+        core = name.strip("*")
+        return None if any(core in m for m in bounds["upper"]) else "partial-name-can-match-nothing"
+    if kind not in ("are_named", "are_sub_modules_of"):
         return None
     root = bounds["root"]
     if not (name == root or name.startswith(root + ".")):
